@@ -480,7 +480,7 @@ class ApiGen:
             b1, b2 = self.store(k), self.store(k2)
             if b1 != b2:
                 self.report('C01', 'roundtrip-store', 'serialized bytes differ after the round trip')
-            n = r.choice([32, 16, 64, 1])
+            n = r.choice([32, 16, 64, 1, 32, 2 ** 32 + 32, 2 ** 32, 2 ** 63 + 1])
             k1o, k2o = self.keygen(k, coin, n), self.keygen(k2, coin, n)
             if k1o and k2o and k1o.events != k2o.events:
                 self.report('C04', 'keygen-path', 'KDF inputs of the decoded seed differ from those of the original: %s vs %s' % (k1o.events, k2o.events))
